@@ -299,6 +299,9 @@ def run_check(pid, tier, seed):
             results = [f.result() for f in futs]
     merged = merge(results)
     known = load_known(pid)
+    if os.environ.get('VF_DUMP'):
+        with open(os.path.join(OUT, 'dump-%s.json' % pid), 'w') as fh:
+            json.dump(merged['violations'], fh)
 
     unlisted = [v for v in merged['violations'] if v['key'] is None or v['key'] not in known]
     n_unlisted = sum(c for k, c in merged['vcounts'].items() if k not in known)
